@@ -16,10 +16,10 @@ EXHAUSTIVE = True
 RULE = ('(A) History enumeration on the real Controller.postMortemCheck/_restartComponent/ComponentState.restart/Engine.restart path: '
         'case = (maxRestarts, restartHookFile, restartHookOn incl. the empty list, shutdownOn, system-stability answer) x script. Scripts: '
         'every sequence over {ResourceExhausted, KnownIssue, SystemIssue, SubmissionFailed as a failed launch, SubmissionFailed '
-        'reported by a task object} up to length L (3 quick / 5 thorough) followed by every terminal reason {Success, Killed, Cancelled, '
+        'reported by a task object} up to length L (3 quick / 4 thorough) followed by every terminal reason {Success, Killed, Cancelled, '
         'UnknownIssue, SystemIssue}, plus long runs X^k (k up to 8) and alternations that cross the 5-resubmission cap and '
         'maxRestarts=3; restart-hook answers: all-positive and every single deviation (one of 10 other answers at one position) '
-        'for scripts of length <=1 (quick) / <=3 (thorough); after the final state one more restart request is issued (it must be '
+        'for scripts of length <=1 (quick) / <=2 (thorough); after the final state one more restart request is issued (it must be '
         'refused and launch nothing). (B) a repeating observer through the real controller stage loop: last execution x restarted '
         'execution over {ResourceExhausted, KnownIssue, Success, SystemIssue} x {ResourceExhausted, Success, KnownIssue, restart '
         'submission fails after 12 s} x retries x restartHookOn x maxRestarts. (C) an external kill at every scheduling step between '
@@ -71,8 +71,8 @@ def configs(thorough):
 
 def scripts(thorough):
     """yields (reasons, whether single hook-answer deviations are enumerated for it)"""
-    L = 5 if thorough else 3
-    LH = 3 if thorough else 1
+    L = 4 if thorough else 3     # (L = 5 was tried: 4 million cases, about 45 CPU-hours)
+    LH = 2 if thorough else 1
     seen = set()
 
     def emit(reasons, hooks):
